@@ -55,12 +55,16 @@ pub struct Plan {
 fn gen(seed: u64, tier: Tier) -> Plan {
     let mut rng = Rng::new(seed);
     let max_depth = if tier == Tier::Quick { 10 } else { 25 };
+    // (depth 0 / 1: the hostile block is block #2 resp. #3, or a sibling of block #2 - the first blocks after the
+    // issuance block, where rules keyed to "block #1" end)
+    let depth = rng.range(0, max_depth) as usize;
+    let path = if depth == 0 { rng.pick(&["pool", "block-tip"]).to_string() } else { rng.pick(&["pool", "block-tip", "block-fork", "block-fork-late"]).to_string() };
     Plan {
         seed,
         state: rng.pick(&["fresh", "after-reorg"]).to_string(),
-        depth: rng.range(2, max_depth) as usize,
+        depth,
         edit: rng.pick(EDITS).to_string(),
-        path: rng.pick(&["pool", "block-tip", "block-fork", "block-fork-late"]).to_string(),
+        path,
         pos: rng.below(4) as usize,
         extra_txs: rng.below(4) as usize,
         prune_after: *rng.pick(&[0u64, 1, 2]),
@@ -221,7 +225,7 @@ impl Scenario for C01 {
     fn meta(&self) -> Meta {
         Meta {
             level: "exploration",
-            rule: "run = honest history (2..10/25 blocks; optionally with a reorganisation so that spent/unspent differ between forks) + one hostile item from a 15-entry catalogue (forged/zero/foreign signature, foreign-owned extra input, non-existent, already-spent, duplicated input in a tx / across txs of a block, user inputs under SPV / BlockStake / ATR / Issuance / Fee / Vip type, overspend) placed at a random transaction position, offered through one of four entry paths: pool (Mempool::add_transaction_if_validates), block as next tip, block on a side fork that then becomes the longer candidate, block on top of an honest stored sibling of the tip (the hostile block is the second block of the candidate chain, so the first is wound and unwound again). Oracles: hostile tx absent from the pool; hostile block never on the longest chain, and with the tip unmoved the spendable set is exactly what it was before the block arrived; independent scan of the node's longest chain against the reference ledger (every value-carrying input spendable at that point, owned by the signer). The honest twin must be accepted, otherwise the run is discarded as trivial. distinct_nontrivial = distinct (state class, depth bucket, edit, path, position) whose twin was accepted.",
+            rule: "run = honest history (0..10/25 blocks after the issuance block; optionally with a reorganisation so that spent/unspent differ between forks) + one hostile item from a 15-entry catalogue (forged/zero/foreign signature, foreign-owned extra input, non-existent, already-spent, duplicated input in a tx / across txs of a block, user inputs under SPV / BlockStake / ATR / Issuance / Fee / Vip type, overspend) placed at a random transaction position, offered through one of four entry paths: pool (Mempool::add_transaction_if_validates), block as next tip, block on a side fork that then becomes the longer candidate, block on top of an honest stored sibling of the tip (the hostile block is the second block of the candidate chain, so the first is wound and unwound again). Oracles: hostile tx absent from the pool; hostile block never on the longest chain, and with the tip unmoved the spendable set is exactly what it was before the block arrived; independent scan of the node's longest chain against the reference ledger (every value-carrying input spendable at that point, owned by the signer). The honest twin must be accepted, otherwise the run is discarded as trivial. distinct_nontrivial = distinct (state class, depth bucket, edit, path, position) whose twin was accepted.",
             real: &["Transaction::validate/validate_against_utxoset/generate", "Slip::validate", "Block::create/generate/validate", "Mempool::add_transaction_if_validates", "Blockchain::add_block"],
             stubs: &["SimIo", "SimConfig", "vendored ahash"],
             assumptions: &["genesis period >> depth in this family (expired inputs are exercised by C13's histories)", "staking off"],
